@@ -58,6 +58,57 @@ def w_case(fields, chain, s, tol, dump_caches, ops, entry=1100):
     return [entry] + w_fields(fields) + w_chain(chain) + w_str(s) + w_bool(tol) + w_bool(dump_caches) + w_list(ops)
 
 
+def w_delta(d):
+    """wire form of a parsing-state delta description (coq/Tok/Delta.v: rd_delta).  A description is None (a None
+    entry of a chain) or {'t': 'set', 'kw': {...}} | {'t': 'enter', 'd': None | str} | {'t': 'leave'} |
+    {'t': 'chain', 'l': [descriptions]}"""
+    if d is None:
+        return [4]
+    t = d['t']
+    if t == 'set':
+        return [0] + w_list(list(d['kw'].items()), lambda kv: [UPDATE_TAG[kv[0]]] + w_value(kv[0], kv[1]))
+    if t == 'enter':
+        return [1] + w_opt(d['d'], w_str)
+    if t == 'leave':
+        return [2]
+    if t == 'chain':
+        return [3] + w_list(d['l'], w_delta)
+    raise ValueError(t)
+
+
+def w_case_delta(fields, delta, s, tol, dump_caches, ops, entry=1703):
+    return [entry] + w_fields(fields) + w_delta(delta) + w_str(s) + w_bool(tol) + w_bool(dump_caches) + w_list(ops)
+
+
+def make_delta(d, s):
+    """the REAL delta object of a description (None for None)"""
+    from pylatexenc.latexnodes import (ParsingStateDelta, ParsingStateDeltaEnterMathMode,
+                                       ParsingStateDeltaLeaveMathMode, ParsingStateDeltaChained)
+    if d is None:
+        return None
+    t = d['t']
+    if t == 'set':
+        return ParsingStateDelta(set_attributes=_py_kwargs(d['kw'], s))
+    if t == 'enter':
+        return ParsingStateDeltaEnterMathMode(math_mode_delimiter=d['d'])
+    if t == 'leave':
+        return ParsingStateDeltaLeaveMathMode()
+    if t == 'chain':
+        return ParsingStateDeltaChained([make_delta(x, s) for x in d['l']])
+    raise ValueError(t)
+
+
+def apply_delta(fields, d, s):
+    """ParsingState(fields) and the state the real delta object makes of it, with a plain LatexWalker (default
+    parsing-state event handler).  Returns (result, base state, delta object, walker)."""
+    from pylatexenc.latexnodes import ParsingState
+    from pylatexenc.latexwalker import LatexWalker
+    base = ParsingState(s=s, **_py_kwargs(fields, s))
+    lw = LatexWalker(s)
+    delta = make_delta(d, s)
+    return delta.get_updated_parsing_state(base, lw), base, delta, lw
+
+
 _ctx_cache = {}
 
 
